@@ -87,7 +87,11 @@ func structDT(t types.Type) *Datatype {
 	var fields []string
 	var sorts []Sort
 	for i := 0; i < st.NumFields(); i++ {
-		fields = append(fields, fmt.Sprintf("%s_%s", name, st.Field(i).Name()))
+		fn := st.Field(i).Name()
+		if fn == "_" {
+			fn = fmt.Sprintf("blank%d", i)
+		}
+		fields = append(fields, fmt.Sprintf("%s_%s", name, fn))
 		sorts = append(sorts, sortOfStatic(st.Field(i).Type()))
 	}
 	if len(fields) == 0 {
